@@ -6,7 +6,8 @@ From BV Require Import Base.Prelude Model.Block Model.ForkDB Model.Forkable Mode
   Proofs.PreludeFacts
   Proofs.Fk.StoreFacts Proofs.Fk.WalkFacts Proofs.Fk.LoopFacts Proofs.Fk.StoreChange Proofs.Fk.SwitchFacts
   Proofs.Fk.FixedLib Proofs.Fk.MovingLibStore Proofs.Fk.MovingLibWalk Proofs.Fk.MovingLibLoops Proofs.Fk.MovingLibInv
-  Proofs.Fk.MovingLibFin Proofs.Fk.MovingLibLookups Proofs.Fk.FailPrefix Proofs.Fk.FailRun Proofs.C18_Proofs.
+  Proofs.Fk.MovingLibFin Proofs.Fk.MovingLibLookups Proofs.Fk.FailPrefix Proofs.Fk.FailRun Proofs.C18_Proofs
+  Spec.C01_Spec Spec.C01_Moving_Spec Proofs.C02_Proofs Proofs.C18_MovingProofs.
 Local Open Scope N_scope.
 
 (* ================================================================ reflection of the correspondence test *)
@@ -337,5 +338,130 @@ Section Follow.
           rewrite Hqq, app_length in Hlen. cbn [length] in Hlen. lia.
     - (* no lookup crashed *)
       apply forallb_forall. intros x Hx. apply in_map_iff in Hx as (n & <- & _). reflexivity.
+  Qed.
+
+  (* ---------------------------------------------------------------- one step of the monitor *)
+
+  Record FInv (s : fstate) (Fin : list block) (S : cstack) (mon : fin_mon) (lastnew : N) (seen : list block) : Prop := mkFInv {
+    fi_m : MInv s Fin S mon;
+    fi_new : lastnew = top_id S;
+    fi_seen : seen_ok s seen
+  }.
+
+  (* only the purge moves the LIB *)
+  Lemma stepw_bounded s Fin S b s' evA evI evS Fnew S' : StepW s Fin S b s' evA evI evS Fnew S' ->
+    libref (db s') <> libref (db s) -> bounded (db s') kept.
+  Proof.
+    intros (_ & _ & _ & _ & _ & _ & _ & _ & _ & _ & _ & _ & _ & _ & Hcases) Hne.
+    destruct Hcases as [(-> & _)|[(_ & _ & Hdb' & _)|[(_ & _ & Hdb' & _)|(_ & _ & _ & _ & _ & s3 & _ & Hl3 & _ & _ & Hc)]]].
+    - contradiction.
+    - rewrite Hdb' in Hne. contradiction.
+    - rewrite Hdb' in Hne. contradiction.
+    - destruct Hc as [(Hsame & _)|(libr & Hp)].
+      + rewrite Hsame, Hl3 in Hne. contradiction.
+      + rewrite Hp. unfold bounded, cutoff. cbn [purge_before_lib move_lib store libref rn].
+        apply Forall_forall. intros e He. apply filter_In in He as [_ He]. apply N.leb_le in He. exact He.
+  Qed.
+
+  Lemma step_follow s Fin S mon lastnew seen b s' evA evI evS Fnew S' :
+    Inv s Fin S -> Ext s Fin S -> FInv s Fin S mon lastnew seen -> In b U ->
+    StepW s Fin S b s' evA evI evS Fnew S' ->
+    exists mon', fin_events (ri r0) r0 b mon (evA ++ evI ++ evS) = Some mon' /\
+      Inv s' (Fin ++ Fnew) S' /\ Ext s' (Fin ++ Fnew) S' /\
+      FInv s' (Fin ++ Fnew) S' mon' (last_new lastnew (evA ++ evI ++ evS)) (b :: seen) /\
+      head_id (head_info s') = last_new lastnew (evA ++ evI ++ evS) /\
+      (forall moved, (moved = true -> fm_last mon <> fm_last mon') ->
+                     look_ok kept U (b :: seen) qh qi mon' moved (model_look s' qh qi) = true).
+  Proof.
+    intros HI HE [HM Hln Hseen] Hb HW.
+    destruct (fin_w s Fin S b mon s' evA evI evS Fnew S' HI HM Hb HW) as (mon' & Hfin & HM').
+    pose proof (ext_step U r0 cfg U_id U_uniq U_up L_id L_num L_up L_decl _ _ _ _ _ _ _ _ _ _ HI HE Hb HW) as HE'.
+    destruct (kept_step U r0 cfg U_id U_uniq U_up L_id L_num L_up L_decl _ _ _ _ _ _ _ _ _ _ HW) as [HK HKb].
+    pose proof (stepw_bounded _ _ _ _ _ _ _ _ _ _ HW) as Hbd.
+    destruct HW as (Happ & HI' & _ & _ & HsI & HsS & _ & Hmono & _ & _ & _ & _ & _ & Hlast & Hcases).
+    pose proof (head_is_top U r0 cfg U_id U_uniq U_up s' _ S' HI' HE') as Hls'.
+    (* the last New *)
+    assert (Hnew' : last_new lastnew (evA ++ evI ++ evS) = top_id S').
+    { rewrite last_new_app, (last_new_inert _ (evI ++ evS)).
+      2:{ apply Forall_app. split; (eapply Forall_impl; [|eassumption]); cbn beta; auto. }
+      destruct Hlast as [->|(pre & e & -> & He & Heb)].
+      - cbn in Happ. injection Happ as <-. exact Hln.
+      - rewrite (last_new_snoc _ _ _ He), Heb.
+        assert (Hlsb : last_sent s' = Some b).
+        { destruct Hcases as [(_ & Hnil & _)|[(_ & _ & _ & _ & Hnil & _)|[(_ & _ & _ & _ & H & _)|(_ & _ & H & _)]]];
+            [destruct pre; discriminate | destruct pre; discriminate | exact H | exact H]. }
+        rewrite Hlsb in Hls'. destruct S' as [|top S'']; [discriminate|]. injection Hls' as ->. reflexivity. }
+    assert (Hseen' : seen_ok s' (b :: seen)).
+    { intros x [<-|Hx].
+      - split; [exact Hb|]. destruct (dropped s b) eqn:Hd.
+        + right. unfold dropped in Hd. apply andb_true_iff in Hd as [Hd _]. apply N.ltb_lt in Hd. lia.
+        + destruct (HKb Hb eq_refl) as [H|H]; [left; exact H | right; lia].
+      - destruct (Hseen x Hx) as [HxU [Hst|Hlt]]; (split; [exact HxU|]).
+        + destruct (HK x HxU (or_introl Hst)) as [H|H]; [left; exact H | right; lia].
+        + right. lia. }
+    exists mon'. split; [exact Hfin|]. split; [exact HI'|]. split; [exact HE'|].
+    split; [constructor; assumption|]. split.
+    - rewrite Hnew'. unfold head_id, head_info. rewrite Hls'. destruct S'; reflexivity.
+    - intros moved Hmv. apply (look_ok_model s' _ S' mon' (b :: seen) moved HI' HE' HM' Hseen').
+      intros Hm. apply Hbd. intros E. apply (Hmv Hm).
+      destruct HM as [_ _ Hml _ _ _]. destruct HM' as [_ _ Hml' _ _ _]. congruence.
+  Qed.
+
+  (* ---------------------------------------------------------------- whole observations, any handler oracle *)
+
+  Variable cfgF : config.
+  Hypothesis HcfgF : nofail cfgF = cfg.
+
+  Lemma step_or_fail s b sN evsN : before_fail cfgF s -> fk_step cfg s b = (sN, evsN, ROk) ->
+    (fk_step cfgF s b = (sN, evsN, ROk) /\ before_fail cfgF sN) \/
+    (exists se e1 e2, evsN = e1 ++ e2 /\ fk_step cfgF s b = (se, e1, RHandlerErr)).
+  Proof.
+    unfold before_fail. rewrite <- HcfgF. destruct (c_fail_at cfgF) as [k|] eqn:Hf; intros Hk Hstep.
+    - pose proof (step_fail cfgF k Hf s b) as R. rewrite Hstep in R. cbn [step_rel'] in R.
+      destruct R as (_ & evs0 & Hev & Hn & Hrel). cbn [app] in Hev. subst evs0.
+      destruct (Hrel Hk) as [HA HB].
+      destruct (N.le_gt_cases (ncalls s + N.of_nat (length evsN)) k) as [Hle|Hgt].
+      + left. split; [apply HA; exact Hle | lia].
+      + right. destruct (HB Hgt) as (se & e1 & e2 & He & _ & Hres). exists se, e1, e2. auto.
+    - left. rewrite (nofail_same cfgF Hf) in Hstep. auto.
+  Qed.
+
+  Lemma follow_run : forall hh s Fin S mon lastnew seen os,
+    Inv s Fin S -> Ext s Fin S -> FInv s Fin S mon lastnew seen -> (forall b, In b hh -> In b U) ->
+    before_fail cfgF s -> model_matches cfgF s hh os qh qi = true ->
+    c18_follow false kept (ri r0) r0 U qh qi mon lastnew seen hh os = true.
+  Proof.
+    induction hh as [|b rest IH]; intros s Fin S mon lastnew seen os HI HE HF Hh Hbf Hmm.
+    - destruct os; reflexivity.
+    - destruct os as [|o os']; [reflexivity|].
+      assert (Hb : In b U) by (apply Hh; left; reflexivity).
+      destruct (step_w U r0 cfg Hnofail Hnew Hundo U_id U_uniq U_up L_id L_num L_up L_decl s Fin S b HI Hb)
+        as (sN & evA & evI & evS & Fnew & S1 & HstepN & HW).
+      destruct (step_follow s Fin S mon lastnew seen b sN evA evI evS Fnew S1 HI HE HF Hb HW)
+        as (mon' & Hfin & HI1 & HE1 & HF1 & Hhead & Hlook).
+      cbn [model_matches] in Hmm. cbn [c18_follow].
+      destruct (step_or_fail s b sN _ Hbf HstepN) as [[HstepF Hbf1] | (se & e1 & e2 & Hev & HstepF)].
+      + rewrite HstepF in Hmm.
+        apply andb_true_iff in Hmm as [Hmm H6]. apply andb_true_iff in Hmm as [Hmm H5].
+        apply andb_true_iff in Hmm as [Hmm H4]. apply andb_true_iff in Hmm as [Hmm H3].
+        apply andb_true_iff in Hmm as [H1 H2].
+        apply (list_eqb_eq _ event_eqb_iff) in H1. apply result_eqb_iff in H2. apply head_eqb_id in H3.
+        rewrite <- H1, Hfin, <- H2. cbv beta iota zeta. cbn [result_eqb negb orb andb].
+        apply andb_true_iff. split; [apply andb_true_iff; split|].
+        * fold (head_id (o_head o)). rewrite <- H3, Hhead. apply N.eqb_refl.
+        * destruct (o_look o) as [l|]; [|reflexivity]. apply look_eqb_eq in H5. subst l.
+          apply Hlook. intros Hm. apply andb_true_iff in Hm as [Hm _]. apply andb_true_iff in Hm as [_ Hm].
+          apply negb_true_iff in Hm. intros E. rewrite E, (proj2 (ref_eqb_iff _ _) eq_refl) in Hm. discriminate.
+        * apply (IH sN _ S1 mon' _ (b :: seen) os' HI1 HE1 HF1); [|exact Hbf1 | exact H6].
+          intros x Hx. apply Hh. right. exact Hx.
+      + rewrite HstepF in Hmm.
+        apply andb_true_iff in Hmm as [Hmm H6]. apply andb_true_iff in Hmm as [Hmm H5].
+        apply andb_true_iff in Hmm as [Hmm H4]. apply andb_true_iff in Hmm as [Hmm H3].
+        apply andb_true_iff in Hmm as [H1 H2].
+        apply (list_eqb_eq _ event_eqb_iff) in H1. apply result_eqb_iff in H2.
+        rewrite Hev in Hfin. destruct (fin_events_split _ _ _ _ _ _ _ Hfin) as (m1 & H0 & _).
+        rewrite <- H1, H0, <- H2. cbv beta iota zeta. cbn [result_eqb negb orb andb].
+        destruct os' as [|o2 os2]; [|discriminate].
+        destruct (o_look o); destruct rest; reflexivity.
   Qed.
 End Follow.
